@@ -19,14 +19,17 @@ INLINE_CONTAINERS = {"Em", "Strong", "Strikethrough", "Link", "Image", "CodeInli
 INLINE_LEAVES = {"Text", "TextSpecial", "Softbreak", "Hardbreak", "HtmlInline", "CustomInline"}
 FINAL = BLOCK_CONTAINERS | LISTS | LEAF_BLOCKS_INLINE | LEAF_BLOCKS | INLINE_CONTAINERS | INLINE_LEAVES
 EDGE = ["*", "**a", "a**", "* a *", "*a", "a*", "_", "__", "*_*", "**", "***", "a * b", "*a*b*", "~~", "~a~", "a~~b", "**a*", "*a**", "_a*", "*[a*](u)", "[*a](u)*", "- *a\n- b*",
-        "- a\n\n- b", "- a\n- b\n\n  c", "1. a\n   - b\n   - c\n2. d", "> - a\n> - b", "- > a", "-\n-", "- \n\n  a", "*a*\n*b*", "a\n*\nb", "`*`*", "\\**a*", "&amp;*a*", "![*a*](u)*", "<http://a.b>*"]
+        "- a\n\n- b", "- a\n- b\n\n  c", "1. a\n   - b\n   - c\n2. d", "> - a\n> - b", "- > a", "-\n-", "- \n\n  a", "*a*\n*b*", "a\n*\nb", "`*`*", "\\**a*", "&amp;*a*", "![*a*](u)*", "<http://a.b>*",
+        # paragraph lines that look like block starts only to a look-ahead (or only to the real call), in tight items
+        "- foo\n  ``` a`b", "- foo\n  ```a`", "1. foo\n   ~~~ x", "- foo\n  # h", "- foo\n  1) x", "- foo\n  2) x", "- foo\n  ***", "- foo\n  <div>", "- foo\n  <x-y>", "- a\n  > b",
+        "- foo\n      code", "- foo\n  [r]: /u", "- foo\n  ===", "- foo\n  - ", "- foo\n  @@@"]
 
 
 def cases(rng, tier, Case):
     res = []
     n = 2500 if tier == "quick" else 120000
     for d in EDGE:
-        for cfg in ("CsW", "Cs", "mp", "msp", mdgen.gen_cfg(rng, require="p")):
+        for cfg in ("CsW", "Cs", "mp", "msp", "nebliatcfqhurHLp", "nebliatcfqhurHLpxX1", mdgen.gen_cfg(rng, require="p")):
             res.append(Case("parse %s 100 T %s" % (cfg, hx(d)), "edge", {"cfg": cfg, "src": hx(d)}))
     for i, d in enumerate(corpus.spec_inputs()):
         if tier == "quick" and i % 4:
